@@ -434,7 +434,7 @@ def elementwise_operation(draw, tier="quick", kernel=None, allow_odd=True):
         types = draw(_widths(kernel, wmode))
     tags = ["fam:elementwise", f"widths:{wmode}"]
     nops = len(types)
-    odd = draw(st.sampled_from(["none"] * 16 + ["strided", "strided", "diag", "offset"])) if allow_odd else "none"
+    odd = draw(st.sampled_from(["none"] * 16 + ["strided", "strided", "diag", "offset", "constrow", "constrow"])) if allow_odd else "none"
     odd_k = draw(st.integers(0, nops - 2)) if odd != "none" else -1  # never the output: it defines the iteration bounds last
     operands = []
     for q in range(nops):
@@ -463,6 +463,12 @@ def elementwise_operation(draw, tier="quick", kernel=None, allow_odd=True):
                 i = draw(st.integers(0, len(A) - 1))
                 b[i] = draw(st.integers(1, 3))
                 tags.append("odd:offset")
+            elif odd == "constrow":
+                # the operand is one slice of a larger buffer: an extra operand dim indexed by a constant
+                i = draw(st.integers(0, len(A)))
+                A.insert(i, [0] * n)
+                b.insert(i, draw(st.integers(0, 2)))
+                tags.append("odd:constrow")
         operands.append(_mk_operand([], types[q], A, b, space="L1"))
     r = dict(form="operation", kernel=kernel, acc=k["acc"], dims=n, bounds=bounds, operands=operands, tags=tags)
     slack = None
@@ -470,6 +476,8 @@ def elementwise_operation(draw, tier="quick", kernel=None, allow_odd=True):
         # linalg accepts any size >= the largest index + 1 for a non-trivial index expression; an even size is the common case
         slack = [[(1 if (q == odd_k and any(abs(c) == 2 for c in row)) else 0) * draw(st.sampled_from([1, 1, 0])) for row in o["A"]]
                  for q, o in enumerate(operands)]
+    if odd == "constrow":
+        slack = [[(draw(st.integers(1, 3)) if (q == odd_k and not any(row)) else 0) for row in o["A"]] for q, o in enumerate(operands)]
     fit_shapes(r, slack)
     sp = _space(draw)
     for o in r["operands"]:
@@ -562,7 +570,7 @@ def conv_operation(draw, tier="quick"):
     OC = 8 * draw(st.sampled_from([1, 1, 2]))
     C = 8 * draw(st.sampled_from([1, 1, 2]))
     FX = draw(st.sampled_from([1, 2, 3, 3]))
-    OY = draw(st.integers(1, 6)) if two_d else 1
+    OY = draw(st.sampled_from([1, 1, 2, 3, 4, 5, 6])) if two_d else 1
     FY = draw(st.sampled_from([1, 2, 3])) if two_d else 1
     s = draw(st.sampled_from([1, 1, 1, 2]))
     dl = draw(st.sampled_from([1, 1, 1, 2]))
@@ -700,7 +708,7 @@ def schedule_recipe(draw, tier="quick", kernel=None):
             elif flavour == "reversed":
                 style = 2
             else:
-                style = draw(st.sampled_from([1, 1, 3, 4]))
+                style = draw(st.sampled_from([1, 1, 3, 4, 5, 5]))
             if style == 0 and i + 1 < len(used):
                 # conv-like compound expression s*da + dl*db
                 s_, dl_ = draw(st.sampled_from([(1, 1), (1, 1), (2, 1), (1, 2), (2, 2), (3, 1)]))
@@ -727,6 +735,16 @@ def schedule_recipe(draw, tier="quick", kernel=None):
                 b.append(draw(st.integers(1, 3)))  # constant offset
                 slk.append(0)
                 tags.append("has:offset-index")
+            elif style == 5:
+                # constant index: an operand dim of size >= 2 that no iteration dim indexes (one slice of a larger buffer);
+                # the iteration dim itself is indexed by the next row
+                rows.append([0] * n)
+                b.append(draw(st.integers(0, 2)))
+                slk.append(draw(st.integers(1, 3)))
+                tags.append("has:constant-index")
+                rw[used[i]] = 1
+                b.append(0)
+                slk.append(0)
             elif style == 4:
                 rw[used[i]] = 1
                 b.append(0)
